@@ -91,7 +91,7 @@ def expand_macros(text, file_text, names, log):
 class FnSpec:
     def __init__(self, file, name, impl=None, nth=0, out_name=None, sig=None, sig_anchor=None, rules=(), requires=None, ensures=None,
                  loops=None, pre_body="", props=(), macros=(), block_anchor=None, attrs="", kind="property", model="S", returns=None,
-                 keep_panics=False, decreases=None, mode="exec", tail=""):
+                 keep_panics=False, decreases=None, mode="exec", tail="", block_nth=0):
         self.file, self.name, self.impl, self.nth = file, name, impl, nth
         self.out_name = out_name or name
         self.sig, self.sig_anchor = sig, sig_anchor
@@ -101,6 +101,7 @@ class FnSpec:
         self.pre_body, self.tail = pre_body, tail
         self.props = list(props)
         self.macros = list(macros)
+        self.block_nth = block_nth
         self.block_anchor = block_anchor      # regex inside the fn: extract the balanced {..} block that follows it instead of the whole body
         self.attrs = attrs
         self.kind = kind                      # property | mechanism | helper
@@ -134,21 +135,21 @@ class FnSpec:
         real_fn = text[s:bc + 1]
         where = f"{self.file}::{self.name}"
         sig_real = lx.strip_comments(text[s:bo]).strip()
-        body = text[bo + 1:bc]
-        if self.block_anchor:
-            bm = lx.mask(body)
-            m = re.search(self.block_anchor, bm, re.S)
-            if not m:
-                raise Undecided(f"{where}: block anchor /{self.block_anchor}/ not found")
-            o = bm.find("{", m.end() - 1)
-            c = lx.match_close(bm, o)
-            real_fn = body[m.start():c + 1]
-            line = text.count("\n", 0, bo + 1 + m.start()) + 1
-            body = body[o + 1:c]
-        body = lx.strip_comments(body)
+        body = lx.strip_comments(text[bo + 1:bc])
         flog = {}
         if self.macros:
             body = expand_macros(body, text, self.macros, flog)
+        if self.block_anchor:
+            bm = lx.mask(body)
+            ms = list(re.finditer(self.block_anchor, bm, re.S))
+            if len(ms) <= self.block_nth:
+                raise Undecided(f"{where}: block anchor /{self.block_anchor}/ #{self.block_nth} not found")
+            m = ms[self.block_nth]
+            o = bm.find("{", m.end() - 1)
+            c = lx.match_close(bm, o)
+            real_fn = body[m.start():c + 1]
+            line = text.count("\n", 0, bo + 1) + 1
+            body = body[o + 1:c]
         body = _drop_macro_statements(body, LOG_MACROS, flog, "R9-log")
         if not self.keep_panics:
             body = _replace_macro_calls(body, PANIC_MACROS, "vpanic()", flog, "R9-panic")
@@ -254,6 +255,70 @@ class InlineCellAlias(Rule):
             n += 1
         if self.count is not None and n != self.count or self.count is None and n < self.min:
             raise Undecided(f"rewrite rule {self.rid} applied {n}x in {where} -- the code's shape changed; contract needs review")
+        if n:
+            log[self.rid] = log.get(self.rid, 0) + n
+        return text
+
+
+class DropChain(Rule):
+    """removes the statement that starts at `anchor` and extends over its balanced `{..}` block and every following
+    `else if .. {..}` / `else {..}` (R9: log-only code such as the statistics report of on_executor_end!)"""
+
+    def __init__(self, rid, anchor, count=1, note=""):
+        Rule.__init__(self, rid, anchor, "", count=count, note=note)
+
+    def apply(self, text, where, log):
+        n = 0
+        while True:
+            m = lx.mask(text)
+            mm = re.search(self.pattern, m, re.S)
+            if not mm:
+                break
+            o = m.find("{", mm.end() - 1)
+            c = lx.match_close(m, o)
+            while True:
+                me = re.match(r"\s*else\b[^{]*\{", m[c + 1:])
+                if not me:
+                    break
+                o2 = c + 1 + me.end() - 1
+                c = lx.match_close(m, o2)
+            text = text[:mm.start()] + text[c + 1:]
+            n += 1
+        if self.count is not None and n != self.count:
+            raise Undecided(f"rewrite rule {self.rid} ({self.note}) applied {n}x in {where}, expected {self.count}x -- the code's shape changed; contract needs review")
+        if n:
+            log[self.rid] = log.get(self.rid, 0) + n
+        return text
+
+
+class DropStatement(Rule):
+    """removes the statement that starts at `anchor` up to the `;` at nesting depth 0 (e.g. a `let f = |x| { .. };` closure definition
+    that is verified separately)"""
+
+    def __init__(self, rid, anchor, count=1, note=""):
+        Rule.__init__(self, rid, anchor, "", count=count, note=note)
+
+    def apply(self, text, where, log):
+        n = 0
+        while True:
+            m = lx.mask(text)
+            mm = re.search(self.pattern, m, re.S)
+            if not mm:
+                break
+            k, depth = mm.end(), 0
+            while k < len(m):
+                ch = m[k]
+                if ch in "([{":
+                    depth += 1
+                elif ch in ")]}":
+                    depth -= 1
+                elif ch == ";" and depth == 0:
+                    break
+                k += 1
+            text = text[:mm.start()] + text[k + 1:]
+            n += 1
+        if self.count is not None and n != self.count:
+            raise Undecided(f"rewrite rule {self.rid} ({self.note}) applied {n}x in {where}, expected {self.count}x -- the code's shape changed; contract needs review")
         if n:
             log[self.rid] = log.get(self.rid, 0) + n
         return text
